@@ -16,7 +16,8 @@ ROLES_PLAIN = [':ARG0', ':ARG1', ':ARG2', ':op1', ':op2', ':op10', ':mod', ':dom
                ':consist-of', ':prep-on-behalf-of', ':superset', ':subset', ':poss', ':beneficiary', ':name',
                ':foo', ':R', ':', ':snt3', ':wiki', ':time', ':location', ':ARG10', ':role', ':employed-by', ':TOP',
                ':consist', ':prep-on-behalf', ':prep-out-of', ':prep-out', ':mode', ':year2', ':year', ':prep-on',
-               ':instance', ':ARG0xyz', ':modabc', ':polarity-on', ':quant-if']
+               ':instance', ':ARG0xyz', ':modabc', ':polarity-on', ':quant-if',
+               ':X', ':X-of', ':Y-of', ':Y', ':a', ':b', ':N1', ':op100', ':op99', ':op20', ':op19', ':ARG2']
 CONSTS = ['-', '+', '7', '0', '0.0', '-1.5e3', '"a b"', '"x:y(z)"', '"\\"q\\""', '"C:\\\\"', '"e\\\\\\"f"', 'imperative', 'x~y', '"t~1"',
           '"#h"', '"a #b"', '"see #5, ^ x"', '"~/d"', '"~5"', '"say \\"~\\" x"', 'a/b', 'Ω', '"é "', '""', '1e400', 'true', 'null', 'NaN']
 ALNS = ['~1', '~e.2', '~e.1,2', '~E.3', '~x4', '~01', '~2,03', '~3,1', '~e.5,2,4']
@@ -175,6 +176,10 @@ class TreeGen:
                     continue
                 self.seen_triples.add(key)
             branches.append((ro, tgt))
+        if not self.wf and maybe(rng, 0.1):
+            atomic = [b for b in branches if b[0] != '/' and not isinstance(b[1], tuple)]
+            if atomic and any(isinstance(b[1], tuple) for b in branches):
+                branches.append(rng.choice(atomic))            # the same attribute once more, after a nested node
         if not self.wf and maybe(rng, self.weird):
             branches.append(('/', rng.choice(CONCEPTS)))       # second concept
         return (var, branches)
@@ -438,7 +443,11 @@ def handbuilt_graph(rng, connected=True, nvars=None):
         else:
             # 0 and 0.0 compare (and hash) equal in Python: a graph holding both is outside the model
             tgt = rng.choice(CONSTS + [None, zero, -3, 2.5, 7])
-            triples.append((s, role(rng, invert=maybe(rng, 0.1)), tgt))
+            r_ = role(rng, invert=maybe(rng, 0.1))
+            if maybe(rng, 0.12):
+                # one role, == constants of different type/sign in different graphs (never within one)
+                r_, tgt = ':value', rng.choice([1, 1.0, 10, 10.0]) if zero == 0 and type(zero) is int else rng.choice([1.0, 10.0])
+            triples.append((s, r_, tgt))
     if maybe(rng, 0.7):
         rng.shuffle(triples)
     # distinct triples
